@@ -76,6 +76,12 @@ to the current code (same fault, same place or its nearest successor; originals 
 caught as the checks stood, one missed (`C19-member-error-aborts-directory`, see its row) and caught after C19's
 corruption enumeration was extended.
 
+A second full re-judging (at d3f92c0, after the second audit round's repairs; `sensitivity/seedall-d3f92c0.json`) showed
+why this has to be repeated: seven more patches had stopped applying or been neutralised by the day's repairs (ported
+again, all caught), and one change - `C20-v3-ignore-test-skipped-above-mindepth` - that had been "caught" was no longer:
+its detection had depended on a single lucky draw. A shape a check is meant to catch needs a generator branch of its
+own; C20 has one now, and the change is caught under five seeds.
+
 Over the four rounds: 80 changes, 47 caught by the checks as they stood at the time, 33 missed and all 33 caught after
 a generator or oracle extension; no check was loosened, and every extension was re-run on the unchanged tree.
 """
